@@ -121,10 +121,8 @@ def h04b(wire: bytes, cont: bool, trailing: bool, rot: bool, qonly: bool, onerr:
         m.to_wire()
     except RENDER_OK:
         pass
-    try:
-        m.to_text()
-    except RENDER_OK:
-        pass
+    # (Message.to_text enumerates flag, rcode, type and class names: it realizes every symbolic header field
+    # and is therefore outside this harness; rdata text rendering is covered per type by H04a2 / C05.)
     return True
 
 
@@ -132,6 +130,12 @@ def h04b_pre(wire, cont, trailing, rot, qonly, onerr):
     k = S("body")
     if len(wire) != 12 + k:
         return False
+    if not S("allopts") and (qonly or onerr):
+        return False
+    if k >= 5 and COUNTS[S("counts")][0] >= 1:
+        # a complete question: type / class become dictionary keys (hashing realizes them): small stated sets
+        if not (wire[13] == 0 and wire[14] in (1, 41, 250, 255) and wire[15] == 0 and wire[16] in (1, 255)):
+            return False
     qd, an, au, ad = COUNTS[S("counts")]
     ok = wire[4] == 0 and wire[5] == qd and wire[6] == 0 and wire[7] == an and wire[8] == 0 and wire[9] == au and wire[10] == 0 and wire[11] == ad
     if not ok:
@@ -144,13 +148,21 @@ def h04b_pre(wire, cont, trailing, rot, qonly, onerr):
 
 def h04b_shards(tier):
     out = []
-    top = 4 if tier == "quick" else 6
+    if tier == "quick":
+        plan = []
+        for ci in range(len(COUNTS)):
+            for opc in (0, 5, 4):
+                plan.append((ci, opc, 0 if sum(COUNTS[ci]) == 0 else 3, False))
+        plan += [(1, 0, 5, False), (1, 5, 5, False), (0, 0, 1, True), (2, 0, 4, True), (4, 5, 4, True)]
+        for ci, opc, body, allopts in plan:
+            out.append({"counts": ci, "opcode": opc, "body": body, "allopts": allopts, "_timeout": 900, "_path_timeout": 60})
+        return out
     for ci in range(len(COUNTS)):
         for opc in (0, 5, "other"):
-            for body in range(0, top + 1):
+            for body in range(0, 7):
                 if sum(COUNTS[ci]) == 0 and body > 1:
                     continue
-                out.append({"counts": ci, "opcode": opc, "body": body, "_timeout": 900, "_path_timeout": 60})
+                out.append({"counts": ci, "opcode": opc, "body": body, "allopts": True, "_timeout": 3000, "_path_timeout": 60})
     return out
 
 
@@ -313,8 +325,8 @@ HARNESSES = [
             encodes=["dns.message.from_wire", "dns.message._WireReader.read", "dns.message._WireReader._get_question",
                      "dns.message._WireReader._get_section", "dns.message._WireReader._add_error", "dns.message.Message._parse_rr_header",
                      "dns.update.UpdateMessage._parse_rr_header"],
-            bound="12-octet header with symbolic id/flags (opcode class per shard: QUERY, UPDATE, other), 9 section-count patterns with counts <= 2, body of <= 4 (6) symbolic octets, the five boolean parser options symbolic",
-            stubs=["E1", "E5", "E6", "E12"], outside="bodies > 6 octets after the header (record-level depth comes from H04a2)"),
+            bound="12-octet header with symbolic id/flags (opcode class per shard: QUERY, UPDATE, other), 9 section-count patterns with counts <= 2; quick: body of 3 symbolic octets (5 for a whole question, its type in {A,OPT,TSIG,ANY} and class in {IN,ANY}) and continue_on_error / ignore_trailing / raise_on_truncation symbolic (all five options on 5 shards); thorough: every body length <= 6, all five options",
+            stubs=["E1", "E5", "E6", "E12"], outside="bodies > 6 octets after the header (record-level depth comes from H04a2); Message.to_text of symbolic headers"),
     Harness("H04c", h04c, h04c_pre, h04c_shards, kind="universal",
             encodes=["dns.name.from_text", "dns.ttl.from_text", "dns.tokenizer.Tokenizer.get", "dns.tokenizer.Token.unescape",
                      "dns.tokenizer.Token.unescape_to_bytes", "dns.rdtypes.txtbase.TXTBase.from_text"],
